@@ -11,10 +11,10 @@ From Coq Require Import List ZArith Bool.
 Import ListNotations.
 Local Open Scope Z_scope.
 
-Inductive arr := AX | ARhs | ATemp | ARes | ASolverC | ASolverR | AScratch.
+Inductive arr := AX | ARhs | ATemp | ARes | ASolverC | ASolverR | AScratch | AMat.   (* AMat: the CSR row of a node *)
 Definition arr_eqb (a b : arr) : bool :=
   match a, b with
-  | AX, AX | ARhs, ARhs | ATemp, ATemp | ARes, ARes | ASolverC, ASolverC | ASolverR, ASolverR | AScratch, AScratch => true
+  | AX, AX | ARhs, ARhs | ATemp, ATemp | ARes, ARes | ASolverC, ASolverC | ASolverR, ASolverR | AScratch, AScratch | AMat, AMat => true
   | _, _ => false
   end.
 
@@ -44,6 +44,8 @@ Definition white_line (j : Z) : bool := j mod 2 =? 1.
 Inductive task :=
 | ResGiveCircle (i : Z) | ResGiveRadial (j : Z)
 | ResTakeCircle (i : Z) | ResTakeRadial (j : Z)
+| AsmGiveCircle (i : Z) | AsmGiveRadial (j : Z)      (* direct-solver matrix assembly: a node gives to the CSR rows of its neighbours *)
+| AsmTakeCircle (i : Z) | AsmTakeRadial (j : Z)      (* ... or fills its own CSR row *)
 | AscCircle (give : bool) (i : Z) (white : bool)
 | AscRadial (give : bool) (j : Z) (white : bool)
 | SolveCircle (private_scratch : bool) (i : Z)
@@ -65,6 +67,10 @@ Definition footprint (d : dims) (t : task) : fp :=
   | ResTakeRadial j =>
       mkFp [mkBox ARes (RFrom nsc) (TList [j])]
            [mkBox ARhs (RFrom nsc) (TList [j]); mkBox AX (RFrom (nsc - 1)) (TList [wr d (j - 1); j; wr d (j + 1)])]
+  | AsmGiveCircle i => let b := mkBox AMat (RList [i - 1; i; i + 1]) TAll in mkFp [b] [b]
+  | AsmGiveRadial j => let b := mkBox AMat (RFrom (nsc - 1)) (TList [wr d (j - 1); j; wr d (j + 1)]) in mkFp [b] [b]
+  | AsmTakeCircle i => mkFp [mkBox AMat (RList [i]) TAll] []
+  | AsmTakeRadial j => mkFp [mkBox AMat (RFrom nsc) (TList [j])] []
   | AscCircle true i white =>
       (* give: a row of the wanted colour collects into itself, a row of the other colour gives to its two neighbours
          (only circle rows are written: the call with i = nsc feeds the outermost circle from the first radial row) *)
@@ -138,7 +144,7 @@ Definition race_free (region : list phase) (d : dims) : Prop :=
 (* ---- executable search for a racing pair (used by the check when a theorem breaks) ---- *)
 Definition all_cells (d : dims) : list cell :=
   flat_map (fun a => flat_map (fun i => map (fun j => (a, i, j)) (range_step 0 (d_nt d) 1)) (range_step 0 (d_nr d) 1))
-           [AX; ARhs; ATemp; ARes; ASolverC; ASolverR; AScratch].
+           [AX; ARhs; ATemp; ARes; ASolverC; ASolverR; AScratch; AMat].
 
 Definition find_race (region : list phase) (d : dims) : option (task * task * cell) :=
   let cells := all_cells d in
